@@ -231,7 +231,8 @@ def extract_as_and_target_segment(
     as_segment = segment.get_child("alias_expression")
     sublist = list_child_segments(segment, False)
     target = sublist[0]
-    if target.type == "keyword" and target.raw_upper == "LATERAL":
+    if target.type == "keyword" and len(sublist) > 1:
+        # a keyword in front of the relation: LATERAL subquery, or a dialect specific spelling like exasol's FROM TABLE t
         target = sublist[1]
     table_expr = target if is_subquery(target) else target.segments[0]
     return as_segment, table_expr
